@@ -1,5 +1,6 @@
 from checks import apifam
 GUARDS = {"ReallocKeepsPrefix", "FailedReallocKeepsOld", "MovedDisjointFromOld", "ExpandSucceedsUpToUsable", "ExpandNeverMoves",
-          "ExpandWithinUsable", "UsableAtLeastRequested", "NoOverlap", "ReallocOfLiveBlock", "FreeOfLiveBlock", "ContentsKept.gen", "ContentsKept.bytes"}
+          "ExpandWithinUsable", "UsableAtLeastRequested", "NoOverlap", "ReallocOfLiveBlock", "FreeOfLiveBlock", "ContentsKept.gen", "ContentsKept.bytes",
+          "WalkCount", "WalkOnlyLive", "WalkEveryLiveOnce", "OutParamUnchanged"}
 def run(tier, seed):
     return apifam.run_api("C05", tier, seed, profiles=["c05"], builds=["rel", "dbg", "sec"], own_guards=GUARDS, crash_decisive=True, gen=(16, 150))
